@@ -5,6 +5,7 @@ import (
 	"fmt"
 	"math/rand/v2"
 	"sort"
+	"strconv"
 	"strings"
 
 	"verif/sim/sched"
@@ -117,6 +118,12 @@ func (SubsScenario) GenCase(r *rand.Rand, prop string) interface{} {
 	if chance(r, 40) {
 		id++
 		c.Actors = append(c.Actors, ActorSpec{Name: "prod1", Ops: []Op{{ID: id, Kind: "resetall"}}})
+	}
+	if chance(r, 30) {
+		// an explicit Reset with lists of its own, possibly while the
+		// service announces its ownership from another goroutine
+		id++
+		c.Actors = append(c.Actors, ActorSpec{Name: "prod3", Ops: []Op{{ID: id, Kind: "reset"}}})
 	}
 	if chance(r, 30) {
 		// the connection is lost and restored: the service announces
@@ -279,6 +286,7 @@ func (e *Engine) checkSubs(ep int) {
 		return
 	}
 	nreset := 0
+	customSeen := map[int]int{}
 	for i, p := range pubs {
 		if p.Subject != "system.reset" {
 			if i == 0 && len(e.Epochs) == 1 {
@@ -293,13 +301,27 @@ func (e *Engine) checkSubs(ep int) {
 			Access    []string `json:"access"`
 		}
 		json.Unmarshal(p.Data, &ev)
-		if strings.HasPrefix(p.Task, "prod") && !strings.Contains(string(p.Data), "") {
+		// an explicit Reset(resources, access) of a scripted caller announces
+		// exactly the lists it was given, once per call
+		custom := false
+		for _, sub := range e.Subs {
+			if sub != nil && sub.Kind == "reset" && sub.Invoke != 0 && fmt.Sprint(ev.Resources) == fmt.Sprint([]string{"test.x." + strconv.Itoa(sub.Op.ID)}) && fmt.Sprint(ev.Access) == fmt.Sprint([]string{"test.y"}) {
+				custom = true
+				customSeen[sub.Op.ID]++
+			}
+		}
+		if custom {
 			continue
 		}
 		nreset++
 		e.H.Evals++
 		if fmt.Sprint(setOf(ev.Resources)) != fmt.Sprint(resSet) || fmt.Sprint(setOf(ev.Access)) != fmt.Sprint(accSet) {
 			e.H.Violate("C09", "reset-content", "", fmt.Sprintf("service %q owned=%v: system.reset announced resources=%v access=%v, expected resources=%v access=%v", c.SvcName, c.Owned, ev.Resources, ev.Access, resSet, accSet))
+		}
+	}
+	for id, n := range customSeen {
+		if n > 1 {
+			e.H.Violate("C09", "reset-content", "duplicated-explicit-reset", fmt.Sprintf("the lists of the explicit Reset call %d were announced %d times", id, n))
 		}
 	}
 	if e.Epochs[ep].Started == 0 || nreset == 0 {
